@@ -50,7 +50,8 @@ vars == <<nm, phase, impl, entry, cont, fired>>
 E0 == [kind |-> "", parent |-> 0, slot |-> "", cand |-> <<>>, tie |-> 0,
        prim |-> "", pres |-> "", len |-> 1, min |-> "", max |-> "", null |-> "",
        const |-> "", vref |-> "", cenc |-> "", desc |-> "", styp |-> "",
-       target |-> 0, idx |-> 0, bl |-> -1, dim |-> "", must |-> TRUE]
+       target |-> 0, idx |-> 0, bl |-> -1, dim |-> "", must |-> TRUE,
+       tname |-> "", vt |-> 0, hdr |-> ""]
 
 PType(s, c, prim, pres)    == [E0 EXCEPT !.kind = "ptype", !.slot = s, !.cand = c, !.prim = prim, !.pres = pres]
 IType(p, s, c, prim, pres) == [E0 EXCEPT !.kind = "itype", !.parent = p, !.slot = s, !.cand = c, !.prim = prim, !.pres = pres]
@@ -68,6 +69,8 @@ Field(p, s, c, t, prim)    == [E0 EXCEPT !.kind = "field", !.parent = p, !.slot 
 Group(p, s, c)             == [E0 EXCEPT !.kind = "group", !.parent = p, !.slot = s, !.cand = c]
 Data(p, s, c)              == [E0 EXCEPT !.kind = "data", !.parent = p, !.slot = s, !.cand = c]
 Tie(e, k)                  == [e EXCEPT !.tie = k, !.cand = <<>>]
+\* constant field of enum type t (or of the enum's encoding type) whose value is the enumerator entity v
+KField(p, s, c, t, prim, v) == [Field(p, s, c, t, prim) EXCEPT !.pres = "constant", !.vt = v]
 
 \* (TLC re-evaluates an overridden CONSTANT at every use; a zero-arity
 \* definition is evaluated once)
@@ -111,7 +114,9 @@ KeywordPool == <<"class", "default", "operator", "new", "int", "template", "this
 
 \* case-insensitive comparison of type names: table for the pool names that
 \* differ from their lower-case form (every other pool name is its own image)
-LowerTab == [A |-> "a", A_0 |-> "a_0", A_1 |-> "a_1", M1 |-> "m1", M2 |-> "m2", A_entry |-> "a_entry",
+LowerTab == [A |-> "a", A_0 |-> "a_0", A_1 |-> "a_1", M1 |-> "m1", M2 |-> "m2", A_entry |-> "a_entry", B |-> "b",
+             Side |-> "side", Flags |-> "flags", Px |-> "px", Qty |-> "qty", Magic |-> "magic", U16t |-> "u16t",
+             Ecase |-> "ecase", Scase |-> "scase", Kside |-> "kside", Refs |-> "refs",
              Byte |-> "byte", Cursor |-> "cursor", Visitor |-> "visitor", T |-> "t", Args |-> "args", Tag |-> "tag",
              NULL |-> "null", blockLength |-> "blocklength", numInGroup |-> "numingroup"]
 Lower(s) == IF s \in DOMAIN LowerTab THEN LowerTab[s] ELSE s
@@ -170,7 +175,7 @@ StepT(n, acc, e) ==
       new   == IF clash THEN Fresh(n[e], mem \cup acc.M \cup NonMangledT(n)) ELSE n[e]
   IN [M |-> IF clash \/ ~pub THEN acc.M \cup {new} ELSE acc.M,
       impl |-> [acc.impl EXCEPT ![e] = new], entry |-> acc.entry,
-      fired |-> acc.fired \cup (IF n[e] \in mem THEN {"type.member"} ELSE {})
+      fired |-> acc.fired \cup (IF n[e] \in mem THEN {"type.member." \o Kind(e)} ELSE {})
                           \cup (IF ~pub /\ n[e] \in acc.M THEN {"type.inline_taken"} ELSE {})
                           \cup (IF clash /\ new # Sfx(n[e], 0) THEN {"fresh.skip"} ELSE {})]
 
@@ -386,9 +391,10 @@ Pat(n, k) == IF k > N THEN ""
 
 EntOut(n, i) == [id |-> i, name |-> n[i], kind |-> SK[i].kind, parent |-> SK[i].parent, slot |-> SK[i].slot,
                  prim |-> SK[i].prim, pres |-> SK[i].pres, len |-> SK[i].len, min |-> SK[i].min, max |-> SK[i].max,
-                 null |-> SK[i].null, const |-> SK[i].const, vref |-> SK[i].vref, cenc |-> SK[i].cenc,
+                 null |-> SK[i].null, const |-> SK[i].const, cenc |-> SK[i].cenc,
+                 vref |-> IF SK[i].vt > 0 THEN n[Par(SK[i].vt)] \o "." \o n[SK[i].vt] ELSE SK[i].vref,
                  desc |-> SK[i].desc, styp |-> SK[i].styp, target |-> SK[i].target, idx |-> SK[i].idx,
-                 bl |-> SK[i].bl, dim |-> SK[i].dim, must |-> SK[i].must]
+                 bl |-> SK[i].bl, dim |-> SK[i].dim, must |-> SK[i].must, tname |-> SK[i].tname, hdr |-> SK[i].hdr]
 
 Vector(n) == [sk |-> SkName, pat |-> Pat(n, 1), names |-> n,
               ents |-> [i \in 1 .. N |-> EntOut(n, i)],
@@ -459,6 +465,25 @@ SkX1 == << PType("pt", <<"t1", "A", "M1">>, "uint32", "required"),
            Msg("m", <<"M1", "A", "types">>),
            Field(4, "f", <<"f1", "A", "t1">>, 1, ""),
            Field(4, "fe", <<"f2", "e1">>, 2, "") >>
+
+\* U1 / U2: every public type that gets mangled (member clash, `types` clash) is also USED: as the type of a
+\* message field and of a group-entry field, as the type of a constant field, and as a <ref> target
+SkU1 == << PEnum("pe", <<"e1", "A">>, "uint8"), EVal(1, "ev", <<"v1", "A">>, "1"),                 \* 1,2
+           PType("pt", <<"t1", "min_value", "types">>, "uint32", "required"),                      \* 3
+           Msg("m", <<"M1">>),                                                                      \* 4
+           Field(4, "f", <<"f1", "A">>, 1, ""), Field(4, "f2", <<"f2">>, 3, ""),                   \* 5,6
+           KField(4, "k", <<"k1">>, 1, "", 2), KField(4, "kp", <<"k2">>, 0, "uint8", 2),           \* 7,8
+           Group(4, "g", <<"g1">>),                                                                 \* 9
+           Field(9, "gf", <<"x1">>, 1, ""), Field(9, "gf2", <<"x2">>, 3, ""), KField(9, "gk", <<"k3">>, 1, "", 2),  \* 10,11,12
+           PComp("rc", <<"rc">>), Ref(13, "r1", <<"r1">>, 1), Ref(13, "r2", <<"r2">>, 3) >>        \* 13,14,15
+
+SkU2 == << PSet("ps", <<"s1", "A">>, "uint16"), Choice(1, "ch", <<"c1", "A">>, 9),                 \* 1,2
+           PComp("pc", <<"c2", "B">>), IType(3, "cm", <<"m1", "B">>, "int32", "required"),         \* 3,4
+           Msg("m", <<"M1", "messages">>),                                                          \* 5
+           Field(5, "f", <<"f1">>, 1, ""), Field(5, "f2", <<"f2", "B">>, 3, ""),                   \* 6,7
+           Group(5, "g", <<"g1">>),                                                                 \* 8
+           Field(8, "gf", <<"x1">>, 1, ""), Field(8, "gf2", <<"x2">>, 3, ""),                      \* 9,10
+           PComp("rc", <<"rc">>), Ref(11, "r1", <<"r1">>, 1), Ref(11, "r2", <<"r2">>, 3) >>        \* 11,12,13
 
 \* F: one identifier of FixedPool in every kind of slot at once, each slot in
 \* a container of its own (so that every generated header has one such name)
